@@ -151,6 +151,42 @@ def run(ctx):
                     viol.append({"what": "a header built through the mapping API serialises to an ill-framed block: " + "; ".join(errs),
                                  "input": {"version": v, "id": bid, "data": data, "entry_point_style": style, "insertion": ins},
                                  "expected": "framing rules", "observed": kbt[:100]})
+    # header strings written by ANOTHER implementation (pad block first / in the middle / in extended form / with a
+    # non-zero filler, extended lengths everywhere) given to wrap: what psec emits must again be well-framed, with the
+    # header's data blocks in order and at most one trailing pad block
+    nforeign = 0
+    for v in "ABCD":
+        for choice in ({"pb_pos": "first", "pb_fill": "9"}, {"pb_pos": "middle"}, {"pb_ext": True, "pb_fill": "~"}, {"pb_fill": "F", "pb_size": 1},
+                       {"ext_all": True, "ll": 3, "pb_pos": "middle", "pb_fill": " "}):
+            c = t.gen_case(rng, version=v, profile="few", keylen=16, mask=None)
+            tries = 0
+            while (len(c["blocks"]) < 2 or sum(len(b[1]) + 4 for b in c["blocks"]) % t.BS[v] == 0) and tries < 50:
+                c = t.gen_case(rng, version=v, profile="few", keylen=16, mask=None)
+                tries += 1
+            fb = t.reference_block(rng, c, **choice)
+            if not fb:
+                continue
+            hs = fb[: tr31.Header().load(fb)]
+            nforeign += 1
+            for how in ("wrap(header string)", "KeyBlock(kbpk, header string).wrap", "unwrap then wrap on the same object"):
+                try:
+                    if how == "wrap(header string)":
+                        out = tr31.wrap(c["kbpk"], hs, c["key"])
+                    elif how.startswith("KeyBlock"):
+                        out = tr31.KeyBlock(c["kbpk"], hs).wrap(c["key"])
+                    else:
+                        kbo = tr31.KeyBlock(c["kbpk"])
+                        kbo.unwrap(fb)
+                        out = kbo.wrap(c["key"])
+                except Exception as e:  # noqa: BLE001
+                    viol.append({"what": "a header written by another implementation could not be re-wrapped: " + how,
+                                 "input": {"header": hs[:200], "choices": choice}, "expected": "key block", "observed": repr(e)[:160]})
+                    continue
+                errs = framing_errors(c, out)
+                if errs:
+                    viol.append({"what": "key block emitted for a header written by another implementation is ill-framed (%s): %s" % (how, "; ".join(errs)),
+                                 "input": {"header": hs[:200], "choices": choice}, "expected": "framing rules", "observed": out[:160]})
+    dist["foreign_header_strings"] = nforeign
     # copies of a header (copy.copy / deepcopy / pickle) and a Blocks object moved to another header: the serialisation of
     # the copy must be that of a header built from scratch with the same values (block size of ITS version, not of the original)
     import copy
